@@ -169,6 +169,16 @@ func genC06(t *rapid.T) C06Case {
 			}
 		}
 	})
+	// rarely used but legal: keys of map options are lower-cased (program-wide setting), and a map option may have
+	// been given entries through SetValue before Parse; pointer, Value() and every key must keep agreeing
+	spec.MapKeysLower = rapid.IntRange(0, 2).Draw(t, "mapkeyslower") == 0
+	spec.Walk(func(path string, cs *CmdSpec, _ []*CmdSpec) {
+		for i := range cs.Opts {
+			if cs.Opts[i].Kind == KStringMap && rapid.Bool().Draw(t, "preset") {
+				cs.Opts[i].PreSet = []string{"MixedKey=pre", "lower=pre2"}
+			}
+		}
+	})
 	c := C06Case{Spec: spec}
 	lv := spec.Levels()
 	n := rapid.IntRange(0, 7).Draw(t, "nitems")
@@ -270,6 +280,17 @@ func checkC06(c C06Case, st *evid.Stats) error {
 	if !eqStrs(A.Remaining, B.Remaining) {
 		return failf("alias vs primary spelling: remaining %s vs %s", q(A.Remaining), q(B.Remaining))
 	}
+	// (1b) Called / CalledAs describe the command line (and environment, SetCalled), not the number of Parse calls:
+	// parsing the same command line again on the same object must leave them as they are
+	if R := Run(c.Spec, argvA, RunOpts{Reparse: true}); R.Panic == "" && !R.ParseFailed && R.Opts2 != nil {
+		st.Class("parsed-twice")
+		for k, v1 := range R.Opts {
+			v2 := R.Opts2[k]
+			if v1.Called != v2.Called || v1.As != v2.As {
+				return failf("after parsing the same command line a second time on the same object, %s reports Called=%v CalledAs=%q (first Parse: Called=%v CalledAs=%q); argv %s env %v", strings.ReplaceAll(k, "\x1f", ":"), v2.Called, v2.As, v1.Called, v1.As, q(argvA), c.Spec.Env)
+			}
+		}
+	}
 	// (2)-(4) per option, at every level where it is visible, through every key
 	lv := c.Spec.Levels()
 	untouchedKinds := map[Kind]bool{}
@@ -313,7 +334,7 @@ func checkC06(c C06Case, st *evid.Stats) error {
 			if got.Called != o.SetCalled {
 				return failf("option %q not mentioned on the command line: Called(%q) at %s = %v, want %v; argv %s", o.Name, k, l.Path, got.Called, o.SetCalled, q(argvA))
 			}
-			if got.Val != o.DefaultCanon() {
+			if len(o.PreSet) == 0 && got.Val != o.DefaultCanon() {
 				return failf("option %q not mentioned on the command line reads %s at %s, declared default %s; argv %s", o.Name, got.Val, l.Path, o.DefaultCanon(), q(argvA))
 			}
 			if got.As != "" {
